@@ -288,6 +288,7 @@ const (
 	zzEvCommitTsExpired
 	zzEvForeignResolve // another client's resolver rolls our primary back just before this request is executed
 	zzEvDelay          // the request is held back while other requests of the transaction proceed (concurrent batches only)
+	zzEvLostResponseCtxDone // the request is executed, its answer is lost and the caller's context ends at that moment
 	zzNumEvents
 )
 
@@ -321,6 +322,7 @@ type zzCluster struct {
 	// client crash (C02): the committing client dies at its crashAt-th request (0-based), which is
 	// either never delivered or delivered but never answered; afterwards none of its requests
 	// reaches the store. Requests of peer clients are not affected and not counted.
+	cancelCaller   func() // ends the context the transaction's caller passed to Commit (nil: not part of the script)
 	peerRPCs       int
 	peers          int
 	holdSecondaryChecks bool // the order in which concurrent CheckSecondaryLocks requests arrive is a choice
@@ -651,6 +653,12 @@ func (c *zzCluster) pessimisticLock(r *kvrpcpb.PessimisticLockRequest) *kvrpcpb.
 	}
 	for _, m := range r.Mutations {
 		ks := c.key(m.Key)
+		if c.faithful && r.LockOnlyIfExists {
+			// lock-only-if-exists: an absent key is reported as not found and stays unlocked
+			if w := ks.newest(); w == nil || w.op == kvrpcpb.Op_Del {
+				continue
+			}
+		}
 		if ks.lock != nil && ks.lock.startTS == r.StartVersion {
 			if ks.lock.op == kvrpcpb.Op_PessimisticLock && ks.lock.forUpdateTS < fut {
 				ks.lock.forUpdateTS = fut
@@ -972,6 +980,9 @@ func (c *zzClient) SendRequest(ctx context.Context, addr string, req *tikvrpc.Re
 		if cl.delays {
 			allowed = append(allowed, zzEvDelay)
 		}
+		if cl.cancelCaller != nil && !cl.regionErrorsOnly {
+			allowed = append(allowed, zzEvLostResponseCtxDone)
+		}
 		// the draw is named after the request it decides, so that a native replay
 		// matches it regardless of the order in which goroutines send
 		ev = allowed[zzChoice(cl.eventName(req), len(allowed))]
@@ -1220,6 +1231,11 @@ func (c *zzClient) SendRequest(ctx context.Context, addr string, req *tikvrpc.Re
 	}
 	if ev == zzEvLostResponse {
 		return finish(nil, zzErrTransport)
+	}
+	if ev == zzEvLostResponseCtxDone {
+		// the caller's deadline passes / it cancels while the request is in flight
+		cl.cancelCaller()
+		return finish(nil, context.Canceled)
 	}
 	rpc.answered = true
 	rpc.resp = resp
